@@ -98,6 +98,11 @@ type DecimateState struct {
 // ConfigurePulseLengths sets this stream's pulse length and # of presamples.
 // Also removes any existing projectors and basis.
 func (dsp *DataStreamProcessor) ConfigurePulseLengths(nsamp, npre int) error {
+	// Refuse lengths that the current edge-multi settings cannot work with BEFORE changing anything:
+	// an invalid combination left installed makes the trigger code index outside the data.
+	if err := dsp.pulseLengthsAcceptable(nsamp, npre); err != nil {
+		return err
+	}
 	// if nsamp or npre is invalid, panic, do not silently ignore
 	if dsp.NSamples != nsamp || dsp.NPresamples != npre {
 		dsp.removeProjectorsBasis()
@@ -116,8 +121,34 @@ func (dsp *DataStreamProcessor) ConfigurePulseLengths(nsamp, npre int) error {
 	return nil
 }
 
+// pulseLengthsAcceptable returns an error if the current trigger settings are invalid for the given record lengths.
+func (dsp *DataStreamProcessor) pulseLengthsAcceptable(nsamp, npre int) error {
+	trial := dsp.EMTState
+	trial.nsamp = int32(nsamp)
+	trial.npre = int32(npre)
+	if dsp.EdgeMulti && !trial.valid() {
+		return fmt.Errorf("edge-multi trigger settings are invalid for %d samples with %d presamples", nsamp, npre)
+	}
+	return nil
+}
+
+// triggerStateAcceptable returns an error if this stream cannot work with the given trigger state.
+func (dsp *DataStreamProcessor) triggerStateAcceptable(state TriggerState) error {
+	trial := state.EMTState
+	trial.nsamp = int32(dsp.NSamples)
+	trial.npre = int32(dsp.NPresamples)
+	if state.EdgeMulti && !trial.valid() {
+		return fmt.Errorf("dsp.EMTState in invalid")
+	}
+	return nil
+}
+
 // ConfigureTrigger sets this stream's trigger state.
 func (dsp *DataStreamProcessor) ConfigureTrigger(state TriggerState) error {
+	// Validate BEFORE installing the new state: a rejected request must leave the old settings in force.
+	if err := dsp.triggerStateAcceptable(state); err != nil {
+		return err
+	}
 	dsp.TriggerState = state
 	dsp.LastTrigger = 0 // forget the Last Trigger, so that all channels will auto trigger
 	// at the same starting point when you send new trigger settings
